@@ -230,6 +230,48 @@ Proof.
   simpl in *. subst oc. split; auto. exists e'. repeat split; auto.
 Qed.
 
+(* ---- self-extension: e.extend(e) doubles the emulsion, like a list ---- *)
+
+Lemma sp_extend_noforce ws : forall s c d vs,
+  nth_error (s_ems s) c = Some (d, vs) ->
+  exists d', sp_extend s c ws false = (sp_ems s (upd (s_ems s) c (d', vs ++ ws)), Ok).
+Proof.
+  induction ws as [|v ws IH]; intros s c d vs E; simpl.
+  - exists d. rewrite app_nil_r, (upd_same _ _ _ E). destruct s; reflexivity.
+  - unfold sp_append. rewrite E.
+    assert (R : rejects (mkE d []) v false = false) by (unfold rejects; simpl; destruct d; reflexivity).
+    rewrite R.
+    set (s1 := sp_ems s (upd (s_ems s) c (new_dtype (mkE d []) v, vs ++ [v]))).
+    assert (E1 : nth_error (s_ems s1) c = Some (new_dtype (mkE d []) v, vs ++ [v])).
+    { unfold s1. simpl. apply nth_error_upd_eq. eapply nth_error_Some_lt; eauto. }
+    destruct (IH s1 c _ _ E1) as [d' H]. exists d'. rewrite H. unfold s1. simpl.
+    rewrite upd_upd, <- app_assoc. reflexivity.
+Qed.
+
+(* on any reachable heap: e.extend(e) with the default flags succeeds and the emulsion then holds its former
+   members twice (fresh copies; ownership: C20_sep_preserved covers OExtendSelf) *)
+Theorem self_extend_doubles h c e :
+  wf h -> Sep h -> Aligned h -> nth_error (ems h) c = Some e ->
+  let r := exec h (OExtendSelf c true false) in
+  snd r = Ok /\
+  option_map snd (nth_error (s_ems (abs (fst r))) c) = Some (abs_vals h (e_mem e) ++ abs_vals h (e_mem e)).
+Proof.
+  intros W S A Ee r.
+  pose proof (abs_refines_list h (OExtendSelf c true false) W S A eq_refl) as R.
+  assert (E0 : nth_error (s_ems (abs h)) c = Some (e_dtype e, abs_vals h (e_mem e))).
+  { rewrite abs_ems_nth, Ee. reflexivity. }
+  change (spec_step (abs h) (OExtendSelf c true false))
+    with (match nth_error (s_ems (abs h)) c with
+          | None => (abs h, Err EIndex)
+          | Some (_, vs) => sp_extend (abs h) c vs false
+          end) in R.
+  rewrite E0 in R.
+  destruct (sp_extend_noforce (abs_vals h (e_mem e)) (abs h) c _ _ E0) as [d' H].
+  rewrite H in R. pose proof (f_equal fst R) as R1. pose proof (f_equal snd R) as R2.
+  cbn [fst snd] in R1, R2. unfold r. split; [symmetry; exact R2|].
+  rewrite <- R1. cbn [s_ems sp_ems]. rewrite nth_error_upd_eq by (eapply nth_error_Some_lt; eauto). reflexivity.
+Qed.
+
 (* ---- the operations that alias by design are not list-model operations ---- *)
 
 Definition vA : value := mkV 0 [0%Q; 0%Q] 1%Q [].
